@@ -14,6 +14,18 @@ Require Import SR.Base.Res SR.Gen.RecfmParams SR.Spec.Recfm SR.Model.Recfm SR.Pr
 Require Import SR.Spec.Layout SR.Model.Layout SR.Spec.OdoStream SR.Model.OdoStream.
 Require SR.Proofs.OdoStreamP.
 Require Import SR.Proofs.LayoutP SR.Proofs.LayoutOdoP.
+(* The definitions of this development that occur in theorem statements (Props/) live in Spec/OdoGeneralWf.v (audit item G1).
+   The abbreviations keep the qualified names OdoStreamGeneralP.name of other files resolving; they are parsing-only aliases. *)
+Require Export SR.Spec.OdoGeneralWf.
+Notation framed := SR.Spec.OdoGeneralWf.framed (only parsing).
+Notation gen_tree := SR.Spec.OdoGeneralWf.gen_tree (only parsing).
+Notation gen_dcount := SR.Spec.OdoGeneralWf.gen_dcount (only parsing).
+Notation gen_e1 := SR.Spec.OdoGeneralWf.gen_e1 (only parsing).
+Notation gen_e2 := SR.Spec.OdoGeneralWf.gen_e2 (only parsing).
+Notation gen_r1 := SR.Spec.OdoGeneralWf.gen_r1 (only parsing).
+Notation gen_r2 := SR.Spec.OdoGeneralWf.gen_r2 (only parsing).
+Notation gen_start := SR.Spec.OdoGeneralWf.gen_start (only parsing).
+Notation gen_row_view := SR.Spec.OdoGeneralWf.gen_row_view (only parsing).
 Open Scope nat_scope.
 
 (* ------------------------------------------------------------------ Part 1: schemas without ODO *)
@@ -414,11 +426,7 @@ Section AbstractRows.
   Context {A : Type}.
   Variable dcount : list A -> nat.
   Variable schema : js.
-
-  (* THE INTERFACE between a family of record descriptions and the file readers: on every buffer that begins with
-     record r the schema walk gives navigator v, and v ends where r ends *)
-  Definition framed (r : list A) (v : nav) : Prop :=
-    (forall more, nav_of dcount (r ++ more) schema = Ok v) /\ lend (n_loc v) = length r.
+  Notation framed := (framed dcount schema).
 
   Lemma framed_self r v : framed r v -> nav_of dcount r schema = Ok v.
   Proof. intros [H _]. specialize (H []). rewrite app_nil_r in H. exact H. Qed.
@@ -781,32 +789,6 @@ Qed.
 
 (* ------------------------------------------------------------------ Part 5: a member of the general family, two records *)
 
-(* 01 R.  05 N PIC 9.
-          05 G.  10 A PIC X(2).  10 T PIC X(3) OCCURS 0 TO 9 DEPENDING ON N.  10 B PIC X.
-          05 H.  10 U OCCURS 0 TO 9 DEPENDING ON N.  15 V PIC X.  15 W PIC X.
-          05 Z PIC X(2).
-   ids: R=1 N=2 G=3 A=4 T=5 B=6 H=7 U=8 V=9 W=10 Z=11.  The ODO table T stands inside the nested group G and is
-   followed by B, by the group table U inside H, and by Z.  Outside the flat family (nested groups). *)
-Definition gen_tree : item :=
-  Group 1%N Once None
-    (ICons (Elem 2%N 1 Once None)
-    (ICons (Group 3%N Once None
-              (ICons (Elem 4%N 2 Once None) (ICons (Elem 5%N 3 (Odo 2%N) None) (ICons (Elem 6%N 1 Once None) INil))))
-    (ICons (Group 7%N Once None
-              (ICons (Group 8%N (Odo 2%N) None (ICons (Elem 9%N 1 Once None) (ICons (Elem 10%N 1 Once None) INil))) INil))
-    (ICons (Elem 11%N 2 Once None) INil)))).
-
-(* the decoder of the example: the value of the first element *)
-Definition gen_dcount (bs : list N) : nat := N.to_nat (hd 0%N bs).
-
-(* count vectors: N = 1 and N = 3; every other non-repeated elementary item starts with the byte 7 *)
-Definition gen_e1 : env := fun c => if N.eqb c 2%N then 1 else 7.
-Definition gen_e2 : env := fun c => if N.eqb c 2%N then 3 else 7.
-
-Definition gen_r1 : list N := ([1] ++ [7; 8] ++ [7; 8; 9] ++ [7] ++ [21; 22] ++ [7; 8])%N.
-Definition gen_r2 : list N :=
-  ([3] ++ [7; 8] ++ [7; 8; 9; 17; 18; 19; 27; 28; 29] ++ [7] ++ [21; 22; 31; 32; 41; 42] ++ [7; 8])%N.
-
 Lemma gen_family_ok :
   NoDup (ids gen_tree) /\ wfo gen_e1 [] gen_tree = true /\ wfo gen_e2 [] gen_tree = true
   /\ flat_odo gen_tree = false /\ js_has_odo (build gen_tree) = true.
@@ -840,14 +822,6 @@ Proof.
   split; [reflexivity|]. split; [reflexivity|]. split; [|reflexivity].
   repeat constructor; eexists; reflexivity.
 Qed.
-
-(* what the row loop delivers on the file of the three records with a window of 32 elements: for each row the length
-   of the buffer handed to Row(), where the navigator ends, where G.T[2], G.B and Z lie *)
-Definition gen_start (rw : row N) (p : list step) : res nat :=
-  match nav_path gen_dcount (row_buf rw) (row_nav rw) p with Ok v => Ok (lstart (n_loc v)) | Err x => Err x end.
-Definition gen_row_view (rw : row N) : nat * nat * res nat * res nat * res nat :=
-  (length (row_buf rw), lend (n_loc (row_nav rw)),
-   gen_start rw [PName 3%N; PName 5%N; PIndex 2], gen_start rw [PName 3%N; PName 6%N], gen_start rw [PName 11%N]).
 
 Lemma gen_run_ok :
   map gen_row_view (fst (fst (row_loop gen_dcount 64 0 0 32 (build gen_tree) (N_init 32 (write_N [gen_r1; gen_r2; gen_r1])))))
